@@ -252,6 +252,70 @@ Proof.
     inversion W; subst. cbn. assumption.
 Qed.
 
+(* ---------------------------------------------------------------- cancel by predicate *)
+Lemma sq_abs_cancel_go : forall p q base carry,
+  sq_abs base (snd (sq_cancel_go p carry q)) =
+  filter (fun e => negb (p (snd e))) (sq_abs (base + carry) q) /\
+  fst (sq_cancel_go p carry q) = filter p (map snd q).
+Proof.
+  induction q as [|[t n] rest IH]; intros base carry; [split; reflexivity|].
+  cbn [sq_cancel_go sq_abs map snd filter]. destruct (p n) eqn:E.
+  - destruct (IH base (carry + t)) as [A B].
+    destruct (sq_cancel_go p (carry + t) rest) as [rm q']. cbn [fst snd negb] in *.
+    try rewrite E. cbn [negb]. split; [|rewrite B; reflexivity].
+    rewrite A. replace (base + (carry + t)) with (base + carry + t) by clia. reflexivity.
+  - destruct (IH (base + carry + t) 0) as [A B].
+    destruct (sq_cancel_go p 0 rest) as [rm q']. cbn [fst snd negb] in *.
+    try rewrite E. cbn [negb sq_abs]. split; [|exact B].
+    replace (base + (t + carry)) with (base + carry + t) by clia.
+    rewrite A. replace (base + carry + t + 0) with (base + carry + t) by clia. reflexivity.
+Qed.
+
+(* all nodes that satisfy p disappear, in queue order; every other node keeps deadline and place *)
+Theorem sq_abs_cancel : forall p q base,
+  sq_abs base (snd (sq_cancel p q)) = filter (fun e => negb (p (snd e))) (sq_abs base q) /\
+  fst (sq_cancel p q) = filter p (map snd q).
+Proof.
+  intros. unfold sq_cancel. destruct (sq_abs_cancel_go p q base 0) as [A B].
+  replace (base + 0) with base in A by clia. auto.
+Qed.
+
+(* before /repo f424a16 the nodes behind a cancelled one became due earlier *)
+Theorem sq_cancel_nobump_shifts : exists p q base,
+  sq_wf q /\
+  sq_abs base (snd (sq_cancel_nobump p q)) <> filter (fun e => negb (p (snd e))) (sq_abs base q).
+Proof.
+  exists (fun n => qn_mid n =? 1),
+         [(2000, sq_mk_node 0 0 1 0 2000 4 []); (500, sq_mk_node 1 1 2 0 2500 4 [])], 0.
+  split; [repeat constructor; cbn; clia|]. cbn. intros H. inversion H.
+Qed.
+
+Lemma sq_cancel_go_wf : forall p q carry, 0 <= carry -> Forall (fun e => 0 <= fst e) q ->
+  Forall (fun e => 0 <= fst e) (snd (sq_cancel_go p carry q)).
+Proof.
+  induction q as [|[t n] rest IH]; intros carry Hc F; [constructor|].
+  inversion F; subst. cbn in H1. cbn [sq_cancel_go]. destruct (p n).
+  - specialize (IH (carry + t) ltac:(clia) H2). destruct (sq_cancel_go p (carry + t) rest). exact IH.
+  - specialize (IH 0 ltac:(clia) H2). destruct (sq_cancel_go p 0 rest). cbn [snd] in *.
+    constructor; [cbn; clia|exact IH].
+Qed.
+
+(* (the head's time may be anything) *)
+Lemma sq_cancel_wf : forall p q, sq_wf q -> sq_wf (snd (sq_cancel p q)).
+Proof.
+  intros p [|[t n] rest] W; [exact I|]. cbn in W. unfold sq_cancel. cbn [sq_cancel_go].
+  assert (G : forall carry q0, Forall (fun e => 0 <= fst e) q0 -> sq_wf (snd (sq_cancel_go p carry q0))).
+  { intros carry q0. revert carry. induction q0 as [|[t1 n1] r1 IH1]; intros carry F; [exact I|].
+    inversion F; subst. cbn [sq_cancel_go]. destruct (p n1).
+    - specialize (IH1 (carry + t1) H2). destruct (sq_cancel_go p (carry + t1) r1). exact IH1.
+    - pose proof (sq_cancel_go_wf p r1 0 ltac:(clia) H2) as X.
+      destruct (sq_cancel_go p 0 r1). cbn [snd] in *. exact X. }
+  destruct (p n).
+  - specialize (G (0 + t) rest W). destruct (sq_cancel_go p (0 + t) rest). exact G.
+  - pose proof (sq_cancel_go_wf p rest 0 ltac:(clia) W) as X.
+    destruct (sq_cancel_go p 0 rest). cbn [snd] in *. exact X.
+Qed.
+
 (* ---------------------------------------------------------------- coap_adjust_basetime *)
 (* moving the base time backwards (or not at all) keeps every deadline *)
 Theorem sq_adjust_back : forall base q now c b' q',
